@@ -28,6 +28,8 @@ Theorem C16_error_names_unknown_placeholder :
   forall r s name, subst r s = inr name -> In (TPh name) (tokenize s) /\ row_find name r = None.
 Proof. exact subst_error. Qed.
 
+(* [definitional] unfolds the model's own definition: a pinned reading of the model (it breaks when the model is edited),
+   not evidence for the property by itself — the model is tied to the code by the correspondence check *)
 Theorem C16_no_examples_unchanged :
   forall sc, o_examples sc = [] -> expand_scenario sc = [inl sc].
 Proof. exact no_examples_unchanged. Qed.
